@@ -39,6 +39,20 @@ def _callee_name(c: ast.Call) -> str:
     return c.func.id if isinstance(c.func, ast.Name) else (c.func.attr if isinstance(c.func, ast.Attribute) else "")
 
 
+def period_limits(P: Program) -> Dict[str, int]:
+    """PeriodDuration.periods: indicator -> number of periods in a year (class-level dict literal)"""
+    thm = P.module("vtlengine.DataTypes.TimeHandling")
+    limits: Dict[str, int] = {}
+    pd_cls = thm.classes.get("PeriodDuration")
+    if pd_cls is not None:
+        for st in ast.walk(pd_cls.node):
+            if isinstance(st, ast.Assign) and any(isinstance(t, ast.Name) and t.id == "periods" for t in st.targets) and isinstance(st.value, ast.Dict):
+                limits = {k.value: v_.value for k, v_ in zip(st.value.keys, st.value.values) if isinstance(k, ast.Constant) and isinstance(v_, ast.Constant)}
+    if set(limits) < set("ASQMWD"):
+        raise AnalysisError("PeriodDuration.periods not found")
+    return limits
+
+
 class _LoadEvents:
     """Events of the post-load validation, followed through helpers of the io modules (call depth <= 4):
     norm = _normalize_time_period_columns, dup = validate_no_duplicates, temp = validate_temporal_columns, dwi = a COUNT(*) query.
@@ -248,15 +262,7 @@ def run(rep: Report, tier: str) -> None:
     # ---- R19.2 languages ------------------------------------------------------------------------------------
     tp_pat = pattern(P, VAL, "TIME_PERIOD_PATTERN")
     tp = regexlang.compile_nfa(tp_pat, "search")
-    thm = P.module("vtlengine.DataTypes.TimeHandling")
-    limits: Dict[str, int] = {}
-    pd_cls = thm.classes.get("PeriodDuration")
-    if pd_cls is not None:
-        for st in ast.walk(pd_cls.node):
-            if isinstance(st, ast.Assign) and any(isinstance(t, ast.Name) and t.id == "periods" for t in st.targets) and isinstance(st.value, ast.Dict):
-                limits = {k.value: v_.value for k, v_ in zip(st.value.keys, st.value.values) if isinstance(k, ast.Constant) and isinstance(v_, ast.Constant)}
-    if set(limits) < set("ASQMWD"):
-        raise AnalysisError("PeriodDuration.periods not found")
+    limits = period_limits(P)
     def num_re(lim: int, width: int) -> str:
         return "(" + "|".join(str(i).zfill(width) for i in range(1, lim + 1)) + ")"
     shapes = {"A": (r"\d{4}A", r"\d{4}A"), "S": (r"\d{4}-S\d", r"\d{4}-S" + num_re(limits["S"], 1)),
